@@ -254,6 +254,7 @@ def crosscheck_unit(job):
     sc = sigcases(con)[sc_index]
     n = 0
     fails = []
+    per_label = {}
     cap = count if con.bounded is None else 10 ** 9
     if only_case is not None:
         cap = count * 5
@@ -266,9 +267,14 @@ def crosscheck_unit(job):
                 continue
             n += 1
             for f in nr.failures:
+                # at most 25 recorded failures per clause label; the evaluation goes on, so that many failures of
+                # one (possibly known) clause cannot hide a different clause failing on a later input
+                per_label[f[0]] = per_label.get(f[0], 0) + 1
+                if per_label[f[0]] > 25:
+                    continue
                 fails.append({"label": f[0], "detail": f[1], "input": repr(argvals)[:500], "observed": nr.outcome,
                               "argvals": _jsonable(argvals), "in_case": nr.case})
-            if n >= cap or len(fails) > 200:
+            if n >= cap:
                 break
     except NotImplementedError as e:
         return {"target": target, "case": sc_index, "evaluations": 0, "fails": [], "skipped": str(e)}
